@@ -19,14 +19,15 @@ LEVEL_TEXT = ("Machine-checked proof, for every interleaving of route updates, u
               "active cluster is exactly (1 if the current config selector names it) + (uncommitted RPCs routed to it), and that an "
               "RPC's reference is released at most once; machine-checked COUNTEREXAMPLES (replayed on the real resolver) showing that "
               "the unchanged code can lose the cluster from the XDSConfig while an RPC is uncommitted and can keep an unreferenced "
-              "cluster in the service config (finding F20), with the positive statement proved under the hypothesis that no clusterInfo "
-              "with a used unsubscribe is re-referenced.")
+              "cluster in the service config (finding F20; a second, transient loss through a stale queued snapshot is F21), with clause 3 "
+              "proved for every run in which no clusterInfo with a used unsubscribe is re-referenced.")
 LEVEL_NOTE = ("Trusted: Lean kernel; the model's reading of xdsdepmgr (static/dynamic reference counts, one Update per change, all "
               "CDS/EDS resources available at once); sync.OnceFunc; the callback serializer is FIFO. 'Its load balancer stays alive' is "
               "read as: the cluster is a child of the service config AND present in the XDSConfig attached to the same resolver state "
               "(the cds balancer of that child needs both). Interceptor lifetime (grpcsync.RefCounted route clusters) and cluster "
               "specifier plugins are not modelled. SelectConfig is only called on the config selector of the last state given to the "
-              "channel (the channel swaps selectors under SafeConfigSelector before the old one is stopped).")
+              "channel (the channel swaps selectors under SafeConfigSelector before the old one is stopped). The check reports the first "
+              "violation of a case: a known finding early in a case can hide a different violation later in the same case (cases are short).")
 GAP = "interceptors, cluster specifier plugins, resource errors, real RPC streams (OnCommitted is called directly)"
 ASSUMPTIONS = ["callback serializer is FIFO", "xDS resources for every named cluster are available (fake client answers every watch)",
                "SelectConfig is not called on a stopped config selector"]
